@@ -177,6 +177,23 @@ def handle (line : String) : String :=
                 x ++ ":" ++ ",".intercalate (ts.map toString))
               "ok " ++ " ; ".intercalate items
       | _, _, _ => "bad-input"
+  | "explainat" :: f :: n :: flag :: ivs :: sigs =>
+      -- the explainer started on the formula with a given interval list and polarity (`b-e b-e ...`, flag 0/1)
+      let parseIv (s : String) : Option (Nat × Nat) :=
+        match s.splitOn "-" with
+        | [a, b] => match a.toNat?, b.toNat? with | some x, some y => some (x, y) | _, _ => none
+        | _ => none
+      match parseFormula f, n.toNat?, (words ivs).mapM parseIv, parseEnv sigs with
+      | some φ, some n, some I, some w =>
+          match explain (sigma w) n φ I (flag == "1") with
+          | .error _ => "err rtamt"
+          | .ok ex =>
+              let vars := (φ.vars.eraseDups)
+              let items := vars.map (fun x =>
+                let ts := (List.range n).filter (fun t => reported ex x t)
+                x ++ ":" ++ ",".intercalate (ts.map toString))
+              "ok " ++ " ; ".intercalate items
+      | _, _, _, _ => "bad-input"
   | "ia" :: sem :: inputs :: f :: _ =>
       -- the IA predicate override as a formula transformation
       let sm : Option Sem := match sem with
